@@ -9,7 +9,8 @@ namespace Ndn.C17
 
 /-! ### Data -/
 
-def gc (s : String) : Component := ⟨8, s.toUTF8.toList.map (·.toNat)⟩
+/-- generic component of an ASCII word (code points = UTF-8 bytes for ASCII; reducible in the kernel) -/
+def gc (s : String) : Component := ⟨8, s.toList.map (·.toNat)⟩
 
 /-- `Component.String() == s` for the plain ASCII words management compares with (a generic
     component whose value is exactly the word). -/
@@ -40,8 +41,13 @@ def wordOf (c : Component) : Word :=
   else if compIs c "general" then .general else if compIs c "create" then .create
   else if compIs c "update" then .update else if compIs c "destroy" then .destroy else .other
 
-def lhPrefix : Name := [gc "localhost", gc "nfd"]
-def lpPrefix : Name := [gc "localhop", gc "nfd"]
+/-- "localhost" / "localhop" as explicit bytes (so that facts about them are decidable in the kernel) -/
+def bLocalhost : Bytes := [108, 111, 99, 97, 108, 104, 111, 115, 116]
+def bLocalhop : Bytes := [108, 111, 99, 97, 108, 104, 111, 112]
+def cLocalhost : Component := ⟨8, bLocalhost⟩
+def cLocalhop : Component := ⟨8, bLocalhop⟩
+def lhPrefix : Name := [cLocalhost, gc "nfd"]
+def lpPrefix : Name := [cLocalhop, gc "nfd"]
 def strategyPrefix : Name := lhPrefix ++ [gc "strategy"]
 def versionType : Nat := 54
 def bestRouteV1 : Name := strategyPrefix ++ [gc "best-route", ⟨versionType, [1]⟩]
@@ -217,6 +223,10 @@ def persOk (f : Face) (p : Nat) : Bool :=
   else if (f.rscheme == "udp4" || f.rscheme == "udp6") && p != 0 && p != 2 then false
   else if f.lscheme == "unix" && p != 0 then false
   else true
+
+/-- the parameters component: `interest.NameV[prefixLength()+2]` exists iff the name has ≥ 5
+    components; the handlers test `len(NameV) < prefixLength()+3` first -/
+def hasParams (name : Name) : Bool := 5 ≤ name.length
 
 def persArgOk (f : Face) (pers : Option Nat) : Bool :=
   match pers with | some pv => persOk f pv | none => true
